@@ -16,8 +16,12 @@ CLAIMED={
  "C04":("exploration","Byzantine peer with field mutations against generated receiver database states; real validator verdict vs reference predicate; no-effect-on-reject via database hash.","§3 C04"),
  "C05":("exploration","Byzantine peer publishing raw and structure-aware mutated messages on every topic against all five node flavours; panic, hang, allocation and recovery oracles over the running system.","§3 C05"),
  "C06":("exploration","Byzantine peer with generated signer/signature lists against the real Gnosis / service validator chains and the access node; verdict vs the statement's predicate.","§3 C06"),
+ "C15":("exploration","Seeded search over block trees, head sequences (forks <= assumed reorg depth), RPC/DB faults and syncer crashes; oracle at every commit that moves the sync position.","§3 C15"),
+ "C16":("exploration","One generated chain synced under three batchings by the real MultiEventSyncer; fired rows vs a canonical-chain reference.","§3 C16"),
 }
 NOTES={
+ "C15":"canonical chain fixed during one Sync; contracts emit a key once per chain and nothing before the sync start block; pgsim/simeth fidelity",
+ "C16":"fault-free; simeth eth_getLogs semantics; reference matcher ref.TrigDef",
  "C05":"process-wide allocation metering with a generous constant; pgsim fidelity",
  "C06":"ECDSA recovery and SSZ hashing are trusted primitives shared with the reference",
  "C01":"message-granularity reading of 'exactly when'; pgsim fidelity (conformance run); trusted-dealer eon keys",
